@@ -50,6 +50,9 @@ func (w *ResponseWriter) WriteHeader(code int) {
 // Flush implements the standard http.Flusher interface.
 func (w *ResponseWriter) Flush() {
 	if flusher, ok := w.Origin.(http.Flusher); ok {
+		if w.Status == 0 {
+			w.Status = http.StatusOK // flushing sends the header: an implicit 200 when none was written yet
+		}
 		flusher.Flush()
 	}
 }
@@ -57,8 +60,14 @@ func (w *ResponseWriter) Flush() {
 // FlushError attempts to invoke FlushError() of the standard http.ResponseWriter.
 func (w *ResponseWriter) FlushError() error {
 	if flusher, ok := w.Origin.(interface{ FlushError() error }); ok {
+		if w.Status == 0 {
+			w.Status = http.StatusOK // flushing sends the header: an implicit 200 when none was written yet
+		}
 		return flusher.FlushError()
 	} else if flusher, ok := w.Origin.(http.Flusher); ok {
+		if w.Status == 0 {
+			w.Status = http.StatusOK
+		}
 		flusher.Flush()
 	}
 	return nil
